@@ -137,9 +137,9 @@ theorem maskFrom_congr (k : Consts Val) (p : IgnPlan Val) (i : Nat) (a₁ a₂ :
 /-! ## the property -/
 
 /-- the names whose keyword values the plan hides: NULLed names, the removed instance, and — under
-`'**'` — every keyword that is not an explicitly named parameter -/
+`'**'` — every keyword that is not a parameter (neither explicitly named nor keyword-only) -/
 def Hidden (p : IgnPlan Val) (n : Val) : Prop :=
-  n ∈ p.nms ∨ (p.selfRemoved = true ∧ p.selfName = some n) ∨ (p.dstar = true ∧ n ∉ p.explicit)
+  n ∈ p.nms ∨ (p.selfRemoved = true ∧ p.selfName = some n) ∨ (p.dstar = true ∧ n ∉ p.explicit ++ p.keep)
 
 theorem popExtra_sim (S : Val → Prop) (m₁ m₂ : List (Val × Val)) (kw₁ kw₂ : List (Val × Val)) (ex : List Val)
     (h : Sim S m₁ m₂) (hk : keys kw₁ = keys kw₂) (h₁ : (keys m₁).Nodup) (h₂ : (keys m₂).Nodup) :
@@ -294,12 +294,12 @@ theorem C11_ignored_irrelevant (k : Consts Val) (p : IgnPlan Val) (d : List (Val
   generalize hw₁ : (p.nms.filter (fun n => (keys u₂ ++ p.explicit).contains n)).foldl (fun acc n => put acc n k.null) u₁ = w₁ at s2 n2₁
   generalize hw₂ : (p.nms.filter (fun n => (keys u₂ ++ p.explicit).contains n)).foldl (fun acc n => put acc n k.null) u₂ = w₂ at s2 n2₂
   -- full agreement after NULLing and popping
-  have hfull : (if p.dstar then popExtra w₁ c₁.kwds p.explicit else w₁) = (if p.dstar then popExtra w₂ c₂.kwds p.explicit else w₂) := by
-    have hsim : Sim (Hidden p) (if p.dstar then popExtra w₁ c₁.kwds p.explicit else w₁) (if p.dstar then popExtra w₂ c₂.kwds p.explicit else w₂) ∧
-        (keys (if p.dstar then popExtra w₁ c₁.kwds p.explicit else w₁)).Nodup := by
+  have hfull : (if p.dstar then popExtra w₁ c₁.kwds (p.explicit ++ p.keep) else w₁) = (if p.dstar then popExtra w₂ c₂.kwds (p.explicit ++ p.keep) else w₂) := by
+    have hsim : Sim (Hidden p) (if p.dstar then popExtra w₁ c₁.kwds (p.explicit ++ p.keep) else w₁) (if p.dstar then popExtra w₂ c₂.kwds (p.explicit ++ p.keep) else w₂) ∧
+        (keys (if p.dstar then popExtra w₁ c₁.kwds (p.explicit ++ p.keep) else w₁)).Nodup := by
       cases p.dstar
       · exact ⟨s2, n2₁⟩
-      · have := popExtra_sim (Hidden p) w₁ w₂ c₁.kwds c₂.kwds p.explicit s2 hkk n2₁ n2₂
+      · have := popExtra_sim (Hidden p) w₁ w₂ c₁.kwds c₂.kwds (p.explicit ++ p.keep) s2 hkk n2₁ n2₂
         exact ⟨this.1, this.2.1⟩
     refine eq_of_keys_get _ _ hsim.1.1 hsim.2 (fun n => ?_)
     by_cases hh : Hidden p n
@@ -312,7 +312,7 @@ theorem C11_ignored_irrelevant (k : Consts Val) (p : IgnPlan Val) (d : List (Val
       have e₂ := hw u₂ w₂ hw₂
       -- values before NULLing agree unless the name is a keyword of the call
       have hu : n ∉ p.nms.filter (fun n => (keys u₂ ++ p.explicit).contains n) →
-          ¬ (p.dstar = true ∧ n ∈ keys c₂.kwds ∧ n ∉ p.explicit) → get? u₁ n = get? u₂ n := by
+          ¬ (p.dstar = true ∧ n ∈ keys c₂.kwds ∧ n ∉ p.explicit ++ p.keep) → get? u₁ n = get? u₂ n := by
         intro hnf hnp
         rcases hh with h1 | h1 | h1
         · -- a NULLed name that is not present: absent on both sides
@@ -352,7 +352,7 @@ theorem C11_ignored_irrelevant (k : Consts Val) (p : IgnPlan Val) (d : List (Val
         · rw [if_neg hf, if_neg hf]; exact hu hf (by simp [hds])
       · simp only [if_true]
         rw [get?_popExtra _ _ _ _ n2₁, get?_popExtra _ _ _ _ n2₂, hkk]
-        by_cases hp : n ∈ keys c₂.kwds ∧ n ∉ p.explicit
+        by_cases hp : n ∈ keys c₂.kwds ∧ n ∉ p.explicit ++ p.keep
         · simp [hp]
         · simp only [hp, if_false]
           rw [e₁, e₂]
@@ -366,10 +366,10 @@ theorem C11_ignored_irrelevant (k : Consts Val) (p : IgnPlan Val) (d : List (Val
 theorem C11_keygen (k : Consts Val) (f : Func Val) (ign : List (Ign Val)) (c₁ c₂ : PCall Val)
     (e : List Val) (d : List (Val × Val)) (hs : kSignature f = some (e, d)) (hd : (keys d).Nodup)
     (hsl : c₁.selfLike = c₂.selfLike)
-    (hargs : AgreeFrom (ignPlan k e ign c₁.selfLike) 0
-      (if (ignPlan k e ign c₁.selfLike).selfRemoved then c₁.args.drop 1 else c₁.args)
-      (if (ignPlan k e ign c₁.selfLike).selfRemoved then c₂.args.drop 1 else c₂.args))
-    (hkw : SimItems (Hidden (ignPlan k e ign c₁.selfLike)) c₁.kwds c₂.kwds) :
+    (hargs : AgreeFrom (ignPlan k e ign c₁.selfLike (names f.kwonly)) 0
+      (if (ignPlan k e ign c₁.selfLike (names f.kwonly)).selfRemoved then c₁.args.drop 1 else c₁.args)
+      (if (ignPlan k e ign c₁.selfLike (names f.kwonly)).selfRemoved then c₂.args.drop 1 else c₂.args))
+    (hkw : SimItems (Hidden (ignPlan k e ign c₁.selfLike (names f.kwonly))) c₁.kwds c₂.kwds) :
     keygen k f ign c₁ = keygen k f ign c₂ := by
   simp only [keygen, hs, ← hsl]
   exact C11_ignored_irrelevant k _ d c₁ c₂ hd hargs hkw
@@ -458,10 +458,11 @@ example : keygen K0 f0 [.name 11, .name 1] { args := [20, 25, 27, 28], kwds := [
           keygen K0 f0 [.name 11, .name 1] { args := [20, 26, 29], kwds := [] } ∧
           keygen K0 f0 [.name 11, .name 1] { args := [20, 25], kwds := [] } ≠
           keygen K0 f0 [.name 11, .name 1] { args := [21, 25], kwds := [] } := by decide
-/-- **F14**: `def g(x, *, k)` with `ignore='**'`: the keyword-only `k` is not an *extra* keyword,
-yet it is dropped from the key — `g(1, k=5)` and `g(1, k=6)` collide (13 = 'k') -/
+/-- **F14, repaired**: `def g(x, *, k)` with `ignore='**'`: the keyword-only `k` is a parameter, not an *extra*
+keyword; it stays in the key, so `g(1, k=5)` and `g(1, k=6)` are told apart (13 = 'k') - before the repair `'**'`
+dropped it and the two calls collided -/
 def g0 : Func Nat := { pos := [⟨10, none⟩], varargs := false, kwonly := [⟨13, none⟩], varkw := false }
-example : keygen K0 g0 [.name 2] { args := [20], kwds := [(13, 25)] } =
+example : keygen K0 g0 [.name 2] { args := [20], kwds := [(13, 25)] } ≠
           keygen K0 g0 [.name 2] { args := [20], kwds := [(13, 26)] } := by decide
 end Examples
 
